@@ -406,3 +406,880 @@ example : locateMask [5, 8] [false, true] ((List.range 40).map (ballMask axesEx 
     = [(1, 6, [5/2, 0])] := by decide +kernel
 
 end DV.C01
+
+/-! ### one droplet, position: the stored position is within half a cell of the centre
+
+Chain: the wrap counts of the periodic differences are a consistent lift of the droplet's component
+(`ballLift_consistent`), so C02's `C02_position_nonwinding` gives the stored position as centre + mean of the
+periodic offsets of the covered cells (`single_droplet_position`); the cells of every grid line are all
+points of an arithmetic progression inside a ball (`fibre_mean`, via `progression_mean` and the half-cell
+lemma `lattice_run_mean`), summed over the grid lines (`ball_offset_mean`). -/
+
+namespace DV.C01
+open DV.Merge DV.MergeInv DV.Label DV.LabelInv DV.GridGeom DV.Render DV.BallConn DV.WrapDiff DV.C02 Relation
+
+variable (axes : List Axis) (ctr : List ℚ)
+
+/-- number of periods by which the periodic difference of cell `c` along axis `a` was shifted -/
+def wrapCount (c a : ℕ) : ℤ :=
+  let ax := axes.getD a default
+  if ax.periodic then ((ax.centre (coordOf (shapeOf axes) c a) - ctr.getD a 0 + ax.length / 2) / ax.length).floor else 0
+
+/-- the integer lift that unwraps the droplet: minus the wrap count -/
+def ballLift (c a : ℕ) : ℤ := - wrapCount axes ctr c a
+
+/-- the periodic difference is the plain difference minus `wrapCount` periods -/
+theorem U_eq_unwrapped (c a : ℕ) :
+    U axes ctr c a = (axes.getD a default).centre (coordOf (shapeOf axes) c a) - ctr.getD a 0
+      - (wrapCount axes ctr c a : ℚ) * (axes.getD a default).length := by
+  rw [U_eq]
+  unfold wrapCount Axis.diff
+  generalize axes.getD a default = ax
+  by_cases hp : ax.periodic = true
+  · rw [if_pos hp]; simp only [hp, if_true]
+    unfold wrapDiff fmod; ring
+  · rw [if_neg hp]; simp only [hp]; simp
+
+theorem dist2r_nonneg : ∀ (axes : List Axis) (ctr : List ℚ) (idx : List ℕ), 0 ≤ dist2r axes ctr idx
+  | [], _, _ => by simp [dist2r]
+  | _ :: _, [], _ => by simp [dist2r]
+  | _ :: _, _ :: _, [] => by simp [dist2r]
+  | a :: as, c :: cs, i :: is => by
+    simp only [dist2r]
+    have := dist2r_nonneg as cs is
+    nlinarith [mul_self_nonneg (a.diff c i)]
+
+theorem diffAt_sq_le : ∀ (axes : List Axis) (ctr : List ℚ) (idx : List ℕ) (k : ℕ),
+    k < axes.length → k < ctr.length → k < idx.length →
+    diffAt axes ctr idx k * diffAt axes ctr idx k ≤ dist2r axes ctr idx
+  | [], _, _, _, h, _, _ => by simp at h
+  | _ :: _, [], _, _, _, h, _ => by simp at h
+  | _ :: _, _ :: _, [], _, _, _, h => by simp at h
+  | a :: as, c :: cs, i :: is, 0, _, _, _ => by
+    simp only [diffAt, List.getD_cons_zero, dist2r]
+    have := dist2r_nonneg as cs is
+    linarith
+  | a :: as, c :: cs, i :: is, k + 1, h1, h2, h3 => by
+    have ih := diffAt_sq_le as cs is k (by simpa using h1) (by simpa using h2) (by simpa using h3)
+    simp only [diffAt, List.getD_cons_succ, dist2r] at ih ⊢
+    nlinarith [mul_self_nonneg (a.diff c i)]
+
+/-- a cell of the ball is closer than `R` along every axis -/
+theorem U_sq_le_D (h : GridWF axes ctr) (c : ℕ) {k : ℕ} (hk : k < axes.length) :
+    U axes ctr c k * U axes ctr c k ≤ D axes ctr c := by
+  unfold D U
+  exact diffAt_sq_le axes ctr _ k hk (by rw [h.len]; exact hk) (by rw [unflat_length axes ctr h]; exact hk)
+
+
+/-- the droplet is resolved on the periodic axes: it does not reach around the box and meet itself -/
+structure Resolved (R : ℚ) : Prop where
+  R_nonneg : 0 ≤ R
+  per : ∀ k, k < axes.length → (axes.getD k default).periodic = true →
+    2 * (R + (axes.getD k default).dx) ≤ (axes.getD k default).length
+
+theorem in_ball_abs (h : GridWF axes ctr) {R : ℚ} (hR : 0 ≤ R) {c : ℕ} (hc : ballMask axes ctr R c = true)
+    {k : ℕ} (hk : k < axes.length) : -R < U axes ctr c k ∧ U axes ctr c k < R := by
+  have h1 := U_sq_le_D axes ctr h c hk
+  have h2 := ((ballMask_iff axes ctr R c).mp hc).2
+  constructor <;> nlinarith
+
+theorem coord_of_set (h : GridWF axes ctr) {c c' : ℕ} {k v : ℕ} (hk : k < axes.length)
+    (hs : unflat (shapeOf axes) c' = (unflat (shapeOf axes) c).set k v) :
+    coordOf (shapeOf axes) c' k = v ∧ ∀ j, j ≠ k → coordOf (shapeOf axes) c' j = coordOf (shapeOf axes) c j := by
+  have hlen : k < (unflat (shapeOf axes) c).length := by rw [unflat_length axes ctr h]; exact hk
+  constructor
+  · unfold coordOf; rw [hs, List.getD_eq_getElem?_getD, List.getElem?_set_self hlen]; rfl
+  · intro j hj
+    unfold coordOf; rw [hs, List.getD_eq_getElem?_getD, List.getD_eq_getElem?_getD, List.getElem?_set_ne (Ne.symm hj)]
+
+theorem wrapCount_other {c c' a : ℕ} (hco : coordOf (shapeOf axes) c' a = coordOf (shapeOf axes) c a) :
+    wrapCount axes ctr c' a = wrapCount axes ctr c a := by
+  unfold wrapCount; rw [hco]
+
+/-- along an in-box face step inside the droplet the wrap counts agree -/
+theorem wrapCount_stepUp (h : GridWF axes ctr) {R : ℚ} (hres : Resolved axes R) {ax l hh : ℕ}
+    (hs : StepUp (shapeOf axes) ax l hh) (ml : ballMask axes ctr R l = true) (mh : ballMask axes ctr R hh = true) :
+    ∀ a, wrapCount axes ctr hh a = wrapCount axes ctr l a := by
+  obtain ⟨hl, hhN, hax, hset, hlt⟩ := hs
+  have hk : ax < axes.length := by unfold shapeOf at hax; simpa using hax
+  obtain ⟨c1, c2⟩ := coord_of_set axes ctr h hk hset
+  intro a
+  by_cases ha : a = ax
+  · subst ha
+    by_cases hp : (axes.getD a default).periodic = true
+    · have hwf := axis_wf axes ctr h hk
+      have hL := length_pos _ hwf
+      have hi := coord_lt axes ctr h l hk
+      have hi' := coord_lt axes ctr h hh hk
+      have hup : Up (axes.getD a default) (coordOf (shapeOf axes) l a) (coordOf (shapeOf axes) hh a) :=
+        Or.inl ⟨c1, hi'⟩
+      have hb := in_ball_abs axes ctr h hres.R_nonneg ml hk
+      have hdu := diff_up _ (ctr.getD a 0) hwf hup hi (fun _ => by
+        have := hres.per a hk hp
+        rw [← U_eq]; linarith [hb.2])
+      rw [← U_eq, ← U_eq, U_eq_unwrapped, U_eq_unwrapped, c1, centre_succ] at hdu
+      have : ((wrapCount axes ctr hh a : ℚ) - wrapCount axes ctr l a) * (axes.getD a default).length = 0 := by linarith
+      have hz : (wrapCount axes ctr hh a : ℚ) - wrapCount axes ctr l a = 0 := by
+        rcases mul_eq_zero.mp this with h0 | h0
+        · exact h0
+        · exact absurd h0 hL.ne'
+      have : (wrapCount axes ctr hh a : ℚ) = wrapCount axes ctr l a := by linarith
+      exact_mod_cast this
+    · unfold wrapCount
+      simp only
+      rw [if_neg hp, if_neg hp]
+  · exact wrapCount_other axes ctr (c2 a ha)
+
+/-- across a periodic boundary pair inside the droplet the wrap count of the upper cell is one larger -/
+theorem wrapCount_across (h : GridWF axes ctr) {R : ℚ} (hres : Resolved axes R) {ax l hh : ℕ}
+    (hs : Across (shapeOf axes) (perOf axes) ax l hh) (ml : ballMask axes ctr R l = true) (mh : ballMask axes ctr R hh = true) :
+    ∀ a, wrapCount axes ctr hh a = wrapCount axes ctr l a + delta a ax := by
+  obtain ⟨hl, hhN, hax, hper, h0, hset⟩ := hs
+  have hk : ax < axes.length := by unfold shapeOf at hax; simpa using hax
+  obtain ⟨c1, c2⟩ := coord_of_set axes ctr h hk hset
+  rw [per_getD axes hk] at hper
+  rw [shape_getD axes hk] at c1
+  intro a
+  by_cases ha : a = ax
+  · subst ha
+    have hwf := axis_wf axes ctr h hk
+    have hL := length_pos _ hwf
+    have hi' := coord_lt axes ctr h hh hk
+    -- the lower-face cell is the upper neighbour of the upper-face cell
+    have hup : Up (axes.getD a default) (coordOf (shapeOf axes) hh a) (coordOf (shapeOf axes) l a) :=
+      Or.inr ⟨hper, c1, h0, hi'⟩
+    have hb := in_ball_abs axes ctr h hres.R_nonneg mh hk
+    have hdu := diff_up _ (ctr.getD a 0) hwf hup hi' (fun _ => by
+      have := hres.per a hk hper
+      rw [← U_eq]; linarith [hb.2])
+    rw [← U_eq, ← U_eq, U_eq_unwrapped, U_eq_unwrapped, c1, h0] at hdu
+    have hn : ((axes.getD a default).n : ℚ) = (((axes.getD a default).n - 1 : ℕ) : ℚ) + 1 := by
+      have := hwf.n_pos
+      have : (axes.getD a default).n = ((axes.getD a default).n - 1) + 1 := by omega
+      rw [this]; push_cast; simp
+    have hcen : (axes.getD a default).centre ((axes.getD a default).n - 1) =
+        (axes.getD a default).centre 0 + (axes.getD a default).length - (axes.getD a default).dx := by
+      unfold Axis.centre Axis.length; rw [hn]; push_cast; ring
+    rw [hcen] at hdu
+    have : ((wrapCount axes ctr hh a : ℚ) - wrapCount axes ctr l a - 1) * (axes.getD a default).length = 0 := by linarith
+    have hz : (wrapCount axes ctr hh a : ℚ) - wrapCount axes ctr l a - 1 = 0 := by
+      rcases mul_eq_zero.mp this with h0 | h0
+      · exact h0
+      · exact absurd h0 hL.ne'
+    have : (wrapCount axes ctr hh a : ℚ) = wrapCount axes ctr l a + 1 := by linarith
+    have hz' : wrapCount axes ctr hh a = wrapCount axes ctr l a + 1 := by exact_mod_cast this
+    rw [hz']; simp [delta]
+  · rw [wrapCount_other axes ctr (c2 a ha)]
+    simp [delta, ha]
+
+
+theorem conn_pos {lab0 : ℕ → ℕ} {es : List Edge} {a b : ℕ} (hc : Conn lab0 es a b) : 0 < lab0 a ↔ 0 < lab0 b := by
+  induction hc with
+  | rel a b hl => exact ⟨fun _ => hl.2.1, fun _ => hl.1⟩
+  | refl a => exact Iff.rfl
+  | symm a b _ ih => exact ih.symm
+  | trans a b c _ _ ih1 ih2 => exact ih1.trans ih2
+
+/-- **the wrap counts are a consistent lift of the droplet's component**: constant on the in-box
+pieces, changing by exactly one period across each periodic boundary pair -/
+theorem ballLift_consistent (h : GridWF axes ctr) {R : ℚ} (hres : Resolved axes R) (c0 : ℕ)
+    (m0 : ballMask axes ctr R c0 = true) :
+    let mask := ballMask axes ctr R
+    let L := labelFn (shapeOf axes) mask
+    ConsistentLift L (edgesOf (shapeOf axes) (perOf axes)) (Conn L (edgesOf (shapeOf axes) (perOf axes)) c0)
+      (ballLift axes ctr) := by
+  intro mask L
+  have hpos := shape_pos axes ctr h
+  have hmask : ∀ c, mask c = true → c < numCells (shapeOf axes) := fun c hc => ((ballMask_iff axes ctr R c).mp hc).1
+  obtain ⟨hLpos, hLeq, _, _⟩ := labelExec_isLabelling (shapeOf axes) mask hmask
+  have hL0 : 0 < L c0 := (hLpos c0).mpr m0
+  constructor
+  · intro c1 c2 p1 p2 heq a
+    have q1 : mask c1 = true := (hLpos c1).mp ((conn_pos p1).mp hL0)
+    have q2 : mask c2 = true := (hLpos c2).mp ((conn_pos p2).mp hL0)
+    have hconn := (hLeq c1 c2 q1 q2).mp heq
+    unfold ballLift
+    congr 1
+    clear heq p1 p2 q1 q2
+    induction hconn with
+    | rel x y hl =>
+      obtain ⟨mx, my, hor⟩ := hl
+      rcases hor with rfl | ⟨e, he, rfl, rfl⟩
+      · rfl
+      · have hs := (inboxEdges_iff (shapeOf axes) hpos e.ax e.l e.h).mp (by cases e; exact he)
+        exact (wrapCount_stepUp axes ctr h hres hs mx my a).symm
+    | refl x => rfl
+    | symm x y _ ih => exact ih.symm
+    | trans x y z _ _ ih1 ih2 => exact ih1.trans ih2
+  · intro e he _ _ pl ph a
+    have ml : mask e.l = true := (hLpos e.l).mp pl
+    have mh : mask e.h = true := (hLpos e.h).mp ph
+    have hs := (edgesOf_iff (shapeOf axes) (perOf axes) hpos e.ax e.l e.h).mp (by cases e; exact he)
+    have := wrapCount_across axes ctr h hres hs ml mh a
+    unfold ballLift
+    omega
+
+theorem wsum_affine (lab : ℕ → ℕ) (r : ℕ) (f : ℕ → ℚ) (α β : ℚ) (cells : List ℕ) :
+    wsum lab r (fun c => α * f c + β) cells = α * wsum lab r f cells + β * count lab r cells := by
+  unfold count wsum
+  induction cells with
+  | nil => simp
+  | cons c cells ih =>
+    simp only [List.map_cons, List.sum_cons, ih]
+    split <;> ring
+
+/-- **Position of the single cluster.**  For a resolved droplet the position stored for its cluster,
+converted to grid coordinates (`lo + dx · pos`, what `grid.transform(…, "cell", "grid")` does), is the
+centre of the droplet plus the mean of the (periodic) offsets of the covered cell centres, up to whole
+periods — along every axis. -/
+theorem single_droplet_position (h : GridWF axes ctr) {R : ℚ} (hres : Resolved axes R) (c0 : ℕ)
+    (m0 : ballMask axes ctr R c0 = true) :
+    let mask := ballMask axes ctr R
+    let L := labelFn (shapeOf axes) mask
+    let cells := List.range (numCells (shapeOf axes))
+    let st := mergeLoop (fun a => (shapeOf axes).getD a 1) L (initSt (coordOf (shapeOf axes)) L cells)
+      (edgesOf (shapeOf axes) (perOf axes))
+    ∃ m : ℕ → ℤ, (∀ a, a < axes.length → (axes.getD a default).periodic = false → m a = 0) ∧ ∀ a, a < axes.length →
+      (axes.getD a default).lo + (axes.getD a default).dx * st.pos (st.lab c0) a =
+        ctr.getD a 0 + wsum st.lab (st.lab c0) (fun c => U axes ctr c a) cells / count st.lab (st.lab c0) cells
+          + (m a : ℚ) * (axes.getD a default).length := by
+  intro mask L cells st
+  have hpos := shape_pos axes ctr h
+  have hmask : ∀ c, mask c = true → c < numCells (shapeOf axes) := fun c hc => ((ballMask_iff axes ctr R c).mp hc).1
+  obtain ⟨hLpos, _, _, _⟩ := labelExec_isLabelling (shapeOf axes) mask hmask
+  have hL0 : 0 < L c0 := (hLpos c0).mpr m0
+  have hc0 : c0 ∈ cells := List.mem_range.mpr (hmask c0 m0)
+  have hm := C02_position_explicit (fun a => (shapeOf axes).getD a 1) L (coordOf (shapeOf axes)) cells
+    (edgesOf (shapeOf axes) (perOf axes)) (edgesOf_cells (shapeOf axes) (perOf axes) hpos) c0 hc0 hL0
+    (ballLift axes ctr) (ballLift_consistent axes ctr h hres c0 m0)
+  set m : ℕ → ℤ := fun a => st.off (L c0) a - ballLift axes ctr c0 a with hmdef
+  refine ⟨m, ?_, fun a ha => ?_⟩
+  · -- no boundary pairs along a non-periodic axis: nothing is ever shifted there
+    intro a ha hp
+    have hoff := off_zero_along (fun a => (shapeOf axes).getD a 1) L (coordOf (shapeOf axes)) cells
+      (edgesOf (shapeOf axes) (perOf axes)) a (by
+        intro e he hax
+        have := ((mem_edgesOf (shapeOf axes) (perOf axes) e).mp he).2.1
+        rw [hax, per_getD axes ha, hp] at this
+        exact absurd this (by simp)) (L c0)
+    have hl : ballLift axes ctr c0 a = 0 := by
+      unfold ballLift wrapCount
+      simp only
+      rw [hp]; simp
+    simp only [hmdef]
+    rw [hl]
+    have : st.off (L c0) a = 0 := hoff
+    omega
+  have hcnt : 0 < count st.lab (st.lab c0) cells := count_pos st.lab (st.lab c0) cells ⟨c0, hc0, rfl⟩
+  have hma : st.pos (st.lab c0) a =
+      wsum st.lab (st.lab c0) (fun c => (coordOf (shapeOf axes) c a : ℚ) + 1 / 2 +
+        (ballLift axes ctr c a : ℚ) * (((shapeOf axes).getD a 1 : ℕ) : ℚ)) cells / count st.lab (st.lab c0) cells
+        + (m a : ℚ) * (((shapeOf axes).getD a 1 : ℕ) : ℚ) := hm a
+  -- pointwise: lo + dx (coord + 1/2 + κ n) = ctr + U
+  have hpt : ∀ c, U axes ctr c a = (axes.getD a default).dx * ((coordOf (shapeOf axes) c a : ℚ) + 1 / 2 +
+        (ballLift axes ctr c a : ℚ) * (((shapeOf axes).getD a 1 : ℕ) : ℚ))
+      + ((axes.getD a default).lo - ctr.getD a 0) := by
+    intro c
+    rw [U_eq_unwrapped, shape_getD axes ha]
+    unfold ballLift Axis.centre Axis.length
+    push_cast; ring
+  have hw : wsum st.lab (st.lab c0) (fun c => U axes ctr c a) cells =
+      (axes.getD a default).dx * wsum st.lab (st.lab c0)
+        (fun c => (coordOf (shapeOf axes) c a : ℚ) + 1 / 2 + (ballLift axes ctr c a : ℚ) * (((shapeOf axes).getD a 1 : ℕ) : ℚ)) cells
+      + ((axes.getD a default).lo - ctr.getD a 0) * count st.lab (st.lab c0) cells := by
+    rw [← wsum_affine]
+    congr 1
+    funext c
+    exact hpt c
+  rw [hw, hma]
+  generalize wsum st.lab (st.lab c0) (fun c => (coordOf (shapeOf axes) c a : ℚ) + 1 / 2 +
+    (ballLift axes ctr c a : ℚ) * (((shapeOf axes).getD a 1 : ℕ) : ℚ)) cells = W
+  generalize count st.lab (st.lab c0) cells = C at hcnt ⊢
+  rw [shape_getD axes ha]
+  unfold Axis.length
+  field_simp
+  ring
+
+end DV.C01
+
+namespace DV.C01
+open Finset BigOperators
+
+/-- **all points of an arithmetic progression inside a ball**: if `J` is exactly the set of integers `j`
+with `(u0 + j h)² < q`, the mean of those points is within half a step of the centre -/
+theorem progression_mean (u0 h q : ℚ) (hh : 0 < h) (J : Finset ℤ) (hJ : ∀ j, j ∈ J ↔ (u0 + j * h) ^ 2 < q)
+    (hne : J.Nonempty) : |∑ j ∈ J, (u0 + j * h)| < J.card * (h / 2) := by
+  set a := J.min' hne with ha
+  set b := J.max' hne with hb
+  have hab : a ≤ b := Finset.min'_le J b (Finset.max'_mem J hne)
+  have haJ : a ∈ J := Finset.min'_mem J hne
+  have hbJ : b ∈ J := Finset.max'_mem J hne
+  set n : ℕ := (b - a).toNat + 1 with hn
+  have hbn : a + (n : ℤ) - 1 = b := by
+    rw [hn]; push_cast
+    rw [Int.toNat_of_nonneg (by omega)]; ring
+  -- J is the run a, a+1, …, b
+  have hconv : ∀ j, a ≤ j → j ≤ b → j ∈ J := by
+    intro j h1 h2
+    rw [hJ]
+    have pa := (hJ a).mp haJ
+    have pb := (hJ b).mp hbJ
+    have e1 : (a : ℚ) ≤ j := by exact_mod_cast h1
+    have e2 : (j : ℚ) ≤ b := by exact_mod_cast h2
+    -- x ↦ x² is convex: the value in between is at most the larger end value
+    by_cases hs : 0 ≤ u0 + j * h
+    · have : u0 + j * h ≤ u0 + b * h := by nlinarith
+      have : -(u0 + b * h) ≤ u0 + j * h := by nlinarith
+      nlinarith
+    · have hs' : u0 + j * h < 0 := not_le.mp hs
+      have : u0 + a * h ≤ u0 + j * h := by nlinarith
+      nlinarith
+  have hJeq : J = (Finset.range n).image (fun k : ℕ => a + (k : ℤ)) := by
+    ext j
+    simp only [Finset.mem_image, Finset.mem_range]
+    constructor
+    · intro hj
+      have h1 : a ≤ j := Finset.min'_le J j hj
+      have h2 : j ≤ b := Finset.le_max' J j hj
+      refine ⟨(j - a).toNat, ?_, ?_⟩
+      · rw [hn]; omega
+      · rw [Int.toNat_of_nonneg (by omega)]; ring
+    · rintro ⟨k, hk, rfl⟩
+      apply hconv
+      · omega
+      · rw [hn] at hk; omega
+  have hinj : Set.InjOn (fun k : ℕ => a + (k : ℤ)) (Finset.range n : Set ℕ) := by
+    intro x _ y _ hxy
+    simp only at hxy
+    omega
+  have hsum : ∑ j ∈ J, (u0 + j * h) = runSum (u0 - h / 2) h 0 a n := by
+    rw [hJeq, Finset.sum_image hinj]
+    unfold runSum cellCentre
+    apply Finset.sum_congr rfl
+    intro k _
+    push_cast; ring
+  have hcard : J.card = n := by
+    rw [hJeq, Finset.card_image_of_injOn hinj, Finset.card_range]
+  have hrun : IsRun (u0 - h / 2) h 0 q a n := by
+    have cc : ∀ i : ℤ, (cellCentre (u0 - h / 2) h i - 0) ^ 2 = (u0 + i * h) ^ 2 := by
+      intro i; unfold cellCentre; ring
+    refine ⟨by omega, ?_, ?_, ?_, ?_⟩
+    · rw [cc]; exact (hJ a).mp haJ
+    · rw [cc, hbn]; exact (hJ b).mp hbJ
+    · rw [cc]
+      have : a - 1 ∉ J := fun hmem => by
+        have := Finset.min'_le J _ hmem
+        omega
+      have := (hJ (a - 1)).not.mp this
+      exact not_lt.mp this
+    · rw [cc]
+      have hb1 : a + (n : ℤ) = b + 1 := by omega
+      rw [hb1]
+      have : b + 1 ∉ J := fun hmem => by
+        have := Finset.le_max' J _ hmem
+        omega
+      have := (hJ (b + 1)).not.mp this
+      exact not_lt.mp this
+  rw [hsum, hcard]
+  exact lattice_run_mean (u0 - h / 2) h 0 q hh a n hrun
+
+end DV.C01
+
+namespace DV.C01
+open Finset BigOperators DV.Render DV.BallConn DV.WrapDiff
+
+theorem sq_lt_bounds {x q ρ : ℚ} (hρ : 0 ≤ ρ) (hq : q ≤ ρ ^ 2) (hx : x ^ 2 < q) : -ρ < x ∧ x < ρ := by
+  constructor <;> nlinarith
+
+/-- value of the (periodic) difference `j` cells away from a reference cell -/
+theorem diff_shift (a : Axis) (hwf : Axis.WF a) (c : ℚ) {i0 : ℕ} (hi0 : i0 < a.n) (j : ℤ) :
+    (a.periodic = true → -(a.length / 2) ≤ a.diff c i0 + j * a.dx → a.diff c i0 + j * a.dx < a.length / 2 →
+      a.diff c (((i0 : ℤ) + j) % a.n).toNat = a.diff c i0 + j * a.dx) ∧
+    (a.periodic = false → 0 ≤ (i0 : ℤ) + j → (i0 : ℤ) + j < a.n →
+      a.diff c ((i0 : ℤ) + j).toNat = a.diff c i0 + j * a.dx) := by
+  have hL := length_pos a hwf
+  have hn : (0 : ℤ) < a.n := by exact_mod_cast hwf.n_pos
+  constructor
+  · intro hp h1 h2
+    unfold Axis.diff at h1 h2 ⊢
+    simp only [hp, if_true] at h1 h2 ⊢
+    obtain ⟨k, hk⟩ := wrapDiff_congr a.length (a.centre i0 - c)
+    rw [hk] at h1 h2 ⊢
+    have hmod : ((((i0 : ℤ) + j) % a.n).toNat : ℤ) = ((i0 : ℤ) + j) % a.n :=
+      Int.toNat_of_nonneg (Int.emod_nonneg _ hn.ne')
+    have hdiv := Int.emod_add_mul_ediv ((i0 : ℤ) + j) a.n
+    apply wrapDiff_unique a.length _ _ hL (k - ((i0 : ℤ) + j) / a.n)
+    · have e : ((((i0 : ℤ) + j) % a.n).toNat : ℚ) = (i0 : ℚ) + j - (a.n : ℚ) * ((((i0 : ℤ) + j) / a.n : ℤ) : ℚ) := by
+        have : ((((i0 : ℤ) + j) % a.n).toNat : ℤ) = (i0 : ℤ) + j - a.n * (((i0 : ℤ) + j) / a.n) := by
+          rw [hmod]; linarith
+        exact_mod_cast this
+      unfold Axis.centre Axis.length
+      rw [e]; push_cast; ring
+    · exact h1
+    · exact h2
+  · intro hp h1 h2
+    rw [diff_nonper a c hp, diff_nonper a c hp]
+    have e : ((((i0 : ℤ) + j).toNat : ℕ) : ℚ) = (i0 : ℚ) + j := by
+      have : ((((i0 : ℤ) + j).toNat : ℕ) : ℤ) = (i0 : ℤ) + j := Int.toNat_of_nonneg h1
+      exact_mod_cast this
+    unfold Axis.centre
+    rw [e]; ring
+
+end DV.C01
+
+namespace DV.C01
+open Finset BigOperators DV.Render DV.BallConn DV.WrapDiff
+
+/-- the droplet is resolved along this axis (radius bound `ρ`): on a periodic axis it does not reach around
+the box, on a non-periodic axis it lies inside the box -/
+structure AxisResolved (a : Axis) (c ρ : ℚ) : Prop where
+  nonneg : 0 ≤ ρ
+  per : a.periodic = true → 2 * (ρ + a.dx) ≤ a.length
+  box : a.periodic = false → a.lo + ρ ≤ c ∧ c + ρ ≤ a.lo + a.length
+
+/-- **Half-cell bound along one fibre of the grid** (periodic or not): the cells of one grid line whose
+(periodic) offset `u` satisfies `u² < q` have offsets whose mean is smaller than half a cell. -/
+theorem fibre_mean (a : Axis) (hwf : Axis.WF a) (c q ρ : ℚ) (hq : q ≤ ρ ^ 2) (hres : AxisResolved a c ρ)
+    (hne : ((Finset.range a.n).filter fun i => (a.diff c i) ^ 2 < q).Nonempty) :
+    |∑ i ∈ (Finset.range a.n).filter (fun i => (a.diff c i) ^ 2 < q), a.diff c i| <
+      (((Finset.range a.n).filter fun i => (a.diff c i) ^ 2 < q).card : ℚ) * (a.dx / 2) := by
+  set F := (Finset.range a.n).filter fun i => (a.diff c i) ^ 2 < q with hF
+  obtain ⟨i0, hi0F⟩ := hne
+  have hi0 : i0 < a.n := Finset.mem_range.mp (Finset.mem_filter.mp hi0F).1
+  have hu0q : (a.diff c i0) ^ 2 < q := (Finset.mem_filter.mp hi0F).2
+  set u0 := a.diff c i0 with hu0
+  have hdx := hwf.dx_pos
+  have hL := length_pos a hwf
+  have hnpos : (0 : ℤ) < a.n := by exact_mod_cast hwf.n_pos
+  have hρ := hres.nonneg
+  have hu0b := sq_lt_bounds hρ hq hu0q
+  have hLn : a.length = a.dx * a.n := rfl
+  -- the window of integers
+  set J := (Finset.Icc (-(a.n : ℤ)) a.n).filter fun j : ℤ => (u0 + j * a.dx) ^ 2 < q with hJ
+  have hJiff : ∀ j : ℤ, j ∈ J ↔ (u0 + j * a.dx) ^ 2 < q := by
+    intro j
+    simp only [hJ, Finset.mem_filter, Finset.mem_Icc, and_iff_right_iff_imp]
+    intro hj
+    have hb := sq_lt_bounds hρ hq hj
+    -- |j dx| < 2ρ ≤ n dx
+    have h2 : 2 * ρ ≤ a.dx * a.n := by
+      by_cases hp : a.periodic = true
+      · have := hres.per hp; rw [hLn] at this; linarith
+      · have hp' : a.periodic = false := by simpa using hp
+        have := hres.box hp'; rw [hLn] at this; linarith
+    have hjl : -(a.n : ℚ) < j := by
+      by_contra hc
+      have : (j : ℚ) ≤ -(a.n : ℚ) := not_lt.mp hc
+      nlinarith
+    have hjr : (j : ℚ) < a.n := by
+      by_contra hc
+      have : (a.n : ℚ) ≤ j := not_lt.mp hc
+      nlinarith
+    constructor
+    · have : (-(a.n : ℤ) : ℚ) < j := by push_cast; exact hjl
+      exact le_of_lt (by exact_mod_cast this)
+    · exact le_of_lt (by exact_mod_cast hjr)
+  -- the cell that is j steps away from i0
+  let g : ℤ → ℕ := fun j => if a.periodic then (((i0 : ℤ) + j) % a.n).toNat else ((i0 : ℤ) + j).toNat
+  have hg : ∀ j ∈ J, g j < a.n ∧ a.diff c (g j) = u0 + j * a.dx := by
+    intro j hj
+    have hjq := (hJiff j).mp hj
+    have hb := sq_lt_bounds hρ hq hjq
+    by_cases hp : a.periodic = true
+    · have hper := hres.per hp
+      have hval := (diff_shift a hwf c hi0 j).1 hp (by rw [← hu0]; linarith) (by rw [← hu0]; linarith)
+      simp only [g, hp, if_true]
+      refine ⟨?_, hval⟩
+      have := Int.emod_lt_of_pos ((i0 : ℤ) + j) hnpos
+      have h0 := Int.emod_nonneg ((i0 : ℤ) + j) hnpos.ne'
+      omega
+    · have hp' : a.periodic = false := by simpa using hp
+      obtain ⟨b1, b2⟩ := hres.box hp'
+      -- centre(i0) + j dx = c + u0 + j dx lies strictly inside the box
+      have hcen : a.centre i0 - c = u0 := by rw [hu0, diff_nonper a c hp']
+      have hlo : (0 : ℚ) ≤ (i0 : ℚ) + j := by
+        unfold Axis.centre at hcen
+        by_contra hneg
+        have : (i0 : ℚ) + j ≤ -1 := by
+          have : (i0 : ℤ) + j ≤ -1 := by
+            have : (i0 : ℤ) + j < 0 := by exact_mod_cast not_le.mp hneg
+            omega
+          exact_mod_cast this
+        nlinarith
+      have hhi : (i0 : ℚ) + j < a.n := by
+        unfold Axis.centre at hcen
+        by_contra hge
+        have : (a.n : ℚ) ≤ (i0 : ℚ) + j := not_lt.mp hge
+        rw [hLn] at b2
+        nlinarith
+      have h1 : (0 : ℤ) ≤ (i0 : ℤ) + j := by exact_mod_cast hlo
+      have h2 : (i0 : ℤ) + j < a.n := by exact_mod_cast hhi
+      have hval := (diff_shift a hwf c hi0 j).2 hp' h1 h2
+      simp only [g, hp', Bool.false_eq_true, if_false]
+      exact ⟨by omega, hval⟩
+  have hsum : ∑ i ∈ F, a.diff c i = ∑ j ∈ J, (u0 + j * a.dx) := by
+    symm
+    apply Finset.sum_bij (fun j _ => g j)
+    · intro j hj
+      obtain ⟨h1, h2⟩ := hg j hj
+      simp only [hF, Finset.mem_filter, Finset.mem_range]
+      exact ⟨h1, by rw [h2]; exact (hJiff j).mp hj⟩
+    · intro j1 hj1 j2 hj2 heq
+      have e1 := (hg j1 hj1).2
+      have e2 := (hg j2 hj2).2
+      have heq' : g j1 = g j2 := heq
+      rw [heq'] at e1
+      have : (j1 : ℚ) * a.dx = j2 * a.dx := by linarith
+      have : (j1 : ℚ) = j2 := by
+        rcases mul_eq_mul_right_iff.mp this with h | h
+        · exact h
+        · exact absurd h hdx.ne'
+      exact_mod_cast this
+    · intro i hi
+      have hin : i < a.n := Finset.mem_range.mp (Finset.mem_filter.mp hi).1
+      have hiq : (a.diff c i) ^ 2 < q := (Finset.mem_filter.mp hi).2
+      by_cases hp : a.periodic = true
+      · -- periodic: j = (i - i0) - (k_i - k_0) n
+        obtain ⟨ki, hki⟩ := wrapDiff_congr a.length (a.centre i - c)
+        obtain ⟨k0, hk0⟩ := wrapDiff_congr a.length (a.centre i0 - c)
+        have hui : a.diff c i = a.centre i - c - ki * a.length := by unfold Axis.diff; simp only [hp, if_true]; exact hki
+        have hu0' : u0 = a.centre i0 - c - k0 * a.length := by rw [hu0]; unfold Axis.diff; simp only [hp, if_true]; exact hk0
+        set j : ℤ := ((i : ℤ) - i0) - (ki - k0) * a.n with hj
+        have hval : u0 + j * a.dx = a.diff c i := by
+          rw [hui, hu0', hj]; unfold Axis.centre Axis.length; push_cast; ring
+        have hjJ : j ∈ J := (hJiff j).mpr (by rw [hval]; exact hiq)
+        refine ⟨j, hjJ, ?_⟩
+        simp only [g, hp, if_true]
+        have : ((i0 : ℤ) + j) % a.n = i := by
+          have : (i0 : ℤ) + j = i + (-(ki - k0)) * a.n := by rw [hj]; ring
+          rw [this, Int.add_mul_emod_self_right]
+          exact Int.emod_eq_of_lt (by omega) (by omega)
+        rw [this]; simp
+      · have hp' : a.periodic = false := by simpa using hp
+        set j : ℤ := (i : ℤ) - i0 with hj
+        have hval : u0 + j * a.dx = a.diff c i := by
+          rw [hu0, diff_nonper a c hp', diff_nonper a c hp', hj]; unfold Axis.centre; push_cast; ring
+        have hjJ : j ∈ J := (hJiff j).mpr (by rw [hval]; exact hiq)
+        refine ⟨j, hjJ, ?_⟩
+        simp only [g, hp', Bool.false_eq_true, if_false]
+        have : (i0 : ℤ) + j = i := by rw [hj]; ring
+        rw [this]; simp
+    · intro j hj
+      exact ((hg j hj).2).symm
+  have hcard : F.card = J.card := by
+    symm
+    apply Finset.card_bij (fun j _ => g j)
+    · intro j hj
+      obtain ⟨h1, h2⟩ := hg j hj
+      simp only [hF, Finset.mem_filter, Finset.mem_range]
+      exact ⟨h1, by rw [h2]; exact (hJiff j).mp hj⟩
+    · intro j1 hj1 j2 hj2 heq
+      have e1 := (hg j1 hj1).2
+      have e2 := (hg j2 hj2).2
+      have heq' : g j1 = g j2 := heq
+      rw [heq'] at e1
+      have : (j1 : ℚ) * a.dx = j2 * a.dx := by linarith
+      have : (j1 : ℚ) = j2 := by
+        rcases mul_eq_mul_right_iff.mp this with h | h
+        · exact h
+        · exact absurd h hdx.ne'
+      exact_mod_cast this
+    · intro i hi
+      -- same witnesses as above
+      have hiq : (a.diff c i) ^ 2 < q := (Finset.mem_filter.mp hi).2
+      have hin : i < a.n := Finset.mem_range.mp (Finset.mem_filter.mp hi).1
+      by_cases hp : a.periodic = true
+      · obtain ⟨ki, hki⟩ := wrapDiff_congr a.length (a.centre i - c)
+        obtain ⟨k0, hk0⟩ := wrapDiff_congr a.length (a.centre i0 - c)
+        have hui : a.diff c i = a.centre i - c - ki * a.length := by unfold Axis.diff; simp only [hp, if_true]; exact hki
+        have hu0' : u0 = a.centre i0 - c - k0 * a.length := by rw [hu0]; unfold Axis.diff; simp only [hp, if_true]; exact hk0
+        set j : ℤ := ((i : ℤ) - i0) - (ki - k0) * a.n with hj
+        have hval : u0 + j * a.dx = a.diff c i := by
+          rw [hui, hu0', hj]; unfold Axis.centre Axis.length; push_cast; ring
+        refine ⟨j, (hJiff j).mpr (by rw [hval]; exact hiq), ?_⟩
+        simp only [g, hp, if_true]
+        have : ((i0 : ℤ) + j) % a.n = i := by
+          have : (i0 : ℤ) + j = i + (-(ki - k0)) * a.n := by rw [hj]; ring
+          rw [this, Int.add_mul_emod_self_right]
+          exact Int.emod_eq_of_lt (by omega) (by omega)
+        rw [this]; simp
+      · have hp' : a.periodic = false := by simpa using hp
+        set j : ℤ := (i : ℤ) - i0 with hj
+        have hval : u0 + j * a.dx = a.diff c i := by
+          rw [hu0, diff_nonper a c hp', diff_nonper a c hp', hj]; unfold Axis.centre; push_cast; ring
+        refine ⟨j, (hJiff j).mpr (by rw [hval]; exact hiq), ?_⟩
+        simp only [g, hp', Bool.false_eq_true, if_false]
+        have : (i0 : ℤ) + j = i := by rw [hj]; ring
+        rw [this]; simp
+  have hJne : J.Nonempty := ⟨0, (hJiff 0).mpr (by simpa using hu0q)⟩
+  rw [hsum, hcard]
+  exact progression_mean u0 a.dx q hdx J hJiff hJne
+
+end DV.C01
+
+namespace DV.C01
+open Finset BigOperators DV.Merge DV.GridGeom DV.Render DV.BallConn
+
+variable (axes : List Axis) (ctr : List ℚ)
+
+/-- the grid line through `c` along axis `k`, named by its cell with coordinate 0 -/
+def lineOf (k c : ℕ) : ℕ := setCoord (shapeOf axes) c k 0
+
+theorem setCoord_self (h : GridWF axes ctr) {c : ℕ} (hc : c < numCells (shapeOf axes)) {k : ℕ} (hk : k < axes.length) :
+    setCoord (shapeOf axes) c k (coordOf (shapeOf axes) c k) = c := by
+  rw [setCoord_eq]
+  have hlen : k < (unflat (shapeOf axes) c).length := by rw [unflat_length axes ctr h]; exact hk
+  have : (unflat (shapeOf axes) c).set k (coordOf (shapeOf axes) c k) = unflat (shapeOf axes) c :=
+    set_getD_self _ k hlen
+  rw [this, flat_unflat (shapeOf axes) (shape_pos axes ctr h) hc]
+
+/-- setting a coordinate twice -/
+theorem setCoord_setCoord (h : GridWF axes ctr) (c : ℕ) {k : ℕ} (hk : k < axes.length) {v w : ℕ}
+    (hv : v < (axes.getD k default).n) :
+    setCoord (shapeOf axes) (setCoord (shapeOf axes) c k v) k w = setCoord (shapeOf axes) c k w := by
+  have hpos := shape_pos axes ctr h
+  obtain ⟨_, s2⟩ := setCoord_spec (shapeOf axes) hpos c k v (by rw [shape_getD axes hk]; exact hv)
+  rw [setCoord_eq (shapeOf axes) (setCoord (shapeOf axes) c k v), s2, List.set_set, ← setCoord_eq]
+
+/-- **Half-cell bound for a droplet, along one axis.**  If the droplet is resolved along axis `k`, the
+(periodic) offsets along `k` of all covered cell centres have a mean smaller than half a cell. -/
+theorem ball_offset_mean (h : GridWF axes ctr) (R : ℚ) {k : ℕ} (hk : k < axes.length)
+    (hres : AxisResolved (axes.getD k default) (ctr.getD k 0) R)
+    (hne : ((Finset.range (numCells (shapeOf axes))).filter fun c => ballMask axes ctr R c = true).Nonempty) :
+    |∑ c ∈ (Finset.range (numCells (shapeOf axes))).filter (fun c => ballMask axes ctr R c = true), U axes ctr c k| <
+      (((Finset.range (numCells (shapeOf axes))).filter fun c => ballMask axes ctr R c = true).card : ℚ)
+        * ((axes.getD k default).dx / 2) := by
+  set N := numCells (shapeOf axes) with hN
+  set S := (Finset.range N).filter fun c => ballMask axes ctr R c = true with hS
+  set a := axes.getD k default with ha
+  set ck := ctr.getD k 0 with hck
+  have hwf : Axis.WF a := axis_wf axes ctr h hk
+  have hpos := shape_pos axes ctr h
+  have hSmem : ∀ c, c ∈ S ↔ c < N ∧ D axes ctr c < R * R := by
+    intro c
+    simp only [hS, Finset.mem_filter, Finset.mem_range, ballMask_iff]
+    tauto
+  -- everything about one grid line
+  have hline : ∀ t, t ∈ S.image (lineOf axes k) →
+      (S.filter fun c => lineOf axes k c = t).Nonempty ∧
+      |∑ c ∈ S.filter (fun c => lineOf axes k c = t), U axes ctr c k| <
+        ((S.filter fun c => lineOf axes k c = t).card : ℚ) * (a.dx / 2) := by
+    intro t ht
+    obtain ⟨c0, hc0S, hc0t⟩ := Finset.mem_image.mp ht
+    have hc0 := ((hSmem c0).mp hc0S).1
+    have h0n : 0 < a.n := hwf.n_pos
+    obtain ⟨t1, t2⟩ := setCoord_spec (shapeOf axes) hpos c0 k 0 (by rw [shape_getD axes hk]; exact h0n)
+    have htN : t < N := by rw [← hc0t]; exact t1
+    have htk : coordOf (shapeOf axes) t k = 0 := by
+      rw [← hc0t]; exact (coord_of_set axes ctr h hk t2).1
+    set q := R * R - (D axes ctr t - U axes ctr t k * U axes ctr t k) with hq
+    set F := (Finset.range a.n).filter fun i => (a.diff ck i) ^ 2 < q with hF
+    -- the cells of the line
+    have hcell : ∀ i, i < a.n →
+        setCoord (shapeOf axes) t k i < N ∧
+        D axes ctr (setCoord (shapeOf axes) t k i) = R * R - q + (a.diff ck i) ^ 2 ∧
+        U axes ctr (setCoord (shapeOf axes) t k i) k = a.diff ck i ∧
+        coordOf (shapeOf axes) (setCoord (shapeOf axes) t k i) k = i ∧
+        lineOf axes k (setCoord (shapeOf axes) t k i) = t := by
+      intro i hi
+      obtain ⟨s1, s2⟩ := setCoord_spec (shapeOf axes) hpos t k i (by rw [shape_getD axes hk]; exact hi)
+      obtain ⟨m1, m2, _, m4⟩ := move_D axes ctr h hk s2
+      refine ⟨s1, ?_, m2, m4, ?_⟩
+      · rw [m1, hq]; ring
+      · unfold lineOf
+        rw [setCoord_setCoord axes ctr h t hk hi, ← htk, setCoord_self axes ctr h htN hk]
+    have hq_le : q ≤ R ^ 2 := by
+      have := U_sq_le_D axes ctr h t hk
+      rw [hq]; nlinarith
+    -- bijection between the line's covered cells and F
+    have hbij_sum : ∑ c ∈ S.filter (fun c => lineOf axes k c = t), U axes ctr c k = ∑ i ∈ F, a.diff ck i := by
+      apply Finset.sum_bij (fun c _ => coordOf (shapeOf axes) c k)
+      · intro c hc
+        obtain ⟨hcS, hct⟩ := Finset.mem_filter.mp hc
+        obtain ⟨hcN, hcD⟩ := (hSmem c).mp hcS
+        have hi := coord_lt axes ctr h c hk
+        have hcs : setCoord (shapeOf axes) t k (coordOf (shapeOf axes) c k) = c := by
+          rw [← hct]; unfold lineOf
+          rw [setCoord_setCoord axes ctr h c hk h0n, setCoord_self axes ctr h hcN hk]
+        obtain ⟨_, e2, _, _, _⟩ := hcell _ hi
+        rw [hcs] at e2
+        simp only [hF, Finset.mem_filter, Finset.mem_range]
+        exact ⟨hi, by nlinarith⟩
+      · intro c1 hc1 c2 hc2 heq
+        obtain ⟨hc1S, hc1t⟩ := Finset.mem_filter.mp hc1
+        obtain ⟨hc2S, hc2t⟩ := Finset.mem_filter.mp hc2
+        have e1 : setCoord (shapeOf axes) t k (coordOf (shapeOf axes) c1 k) = c1 := by
+          rw [← hc1t]; unfold lineOf
+          rw [setCoord_setCoord axes ctr h c1 hk h0n, setCoord_self axes ctr h ((hSmem c1).mp hc1S).1 hk]
+        have e2 : setCoord (shapeOf axes) t k (coordOf (shapeOf axes) c2 k) = c2 := by
+          rw [← hc2t]; unfold lineOf
+          rw [setCoord_setCoord axes ctr h c2 hk h0n, setCoord_self axes ctr h ((hSmem c2).mp hc2S).1 hk]
+        have heq' : coordOf (shapeOf axes) c1 k = coordOf (shapeOf axes) c2 k := heq
+        rw [← e1, ← e2, heq']
+      · intro i hi
+        obtain ⟨hin, hiq⟩ := Finset.mem_filter.mp hi
+        have hin' := Finset.mem_range.mp hin
+        obtain ⟨s1, e2, _, e4, e5⟩ := hcell i hin'
+        refine ⟨setCoord (shapeOf axes) t k i, ?_, e4⟩
+        simp only [Finset.mem_filter]
+        exact ⟨(hSmem _).mpr ⟨s1, by rw [e2]; linarith⟩, e5⟩
+      · intro c hc
+        obtain ⟨hcS, hct⟩ := Finset.mem_filter.mp hc
+        have hcN := ((hSmem c).mp hcS).1
+        have hi := coord_lt axes ctr h c hk
+        have hcs : setCoord (shapeOf axes) t k (coordOf (shapeOf axes) c k) = c := by
+          rw [← hct]; unfold lineOf
+          rw [setCoord_setCoord axes ctr h c hk h0n, setCoord_self axes ctr h hcN hk]
+        obtain ⟨_, _, e3, _, _⟩ := hcell _ hi
+        rw [hcs] at e3
+        exact e3
+    have hbij_card : (S.filter fun c => lineOf axes k c = t).card = F.card := by
+      apply Finset.card_bij (fun c _ => coordOf (shapeOf axes) c k)
+      · intro c hc
+        obtain ⟨hcS, hct⟩ := Finset.mem_filter.mp hc
+        obtain ⟨hcN, hcD⟩ := (hSmem c).mp hcS
+        have hi := coord_lt axes ctr h c hk
+        have hcs : setCoord (shapeOf axes) t k (coordOf (shapeOf axes) c k) = c := by
+          rw [← hct]; unfold lineOf
+          rw [setCoord_setCoord axes ctr h c hk h0n, setCoord_self axes ctr h hcN hk]
+        obtain ⟨_, e2, _, _, _⟩ := hcell _ hi
+        rw [hcs] at e2
+        simp only [hF, Finset.mem_filter, Finset.mem_range]
+        exact ⟨hi, by nlinarith⟩
+      · intro c1 hc1 c2 hc2 heq
+        obtain ⟨hc1S, hc1t⟩ := Finset.mem_filter.mp hc1
+        obtain ⟨hc2S, hc2t⟩ := Finset.mem_filter.mp hc2
+        have e1 : setCoord (shapeOf axes) t k (coordOf (shapeOf axes) c1 k) = c1 := by
+          rw [← hc1t]; unfold lineOf
+          rw [setCoord_setCoord axes ctr h c1 hk h0n, setCoord_self axes ctr h ((hSmem c1).mp hc1S).1 hk]
+        have e2 : setCoord (shapeOf axes) t k (coordOf (shapeOf axes) c2 k) = c2 := by
+          rw [← hc2t]; unfold lineOf
+          rw [setCoord_setCoord axes ctr h c2 hk h0n, setCoord_self axes ctr h ((hSmem c2).mp hc2S).1 hk]
+        have heq' : coordOf (shapeOf axes) c1 k = coordOf (shapeOf axes) c2 k := heq
+        rw [← e1, ← e2, heq']
+      · intro i hi
+        obtain ⟨hin, hiq⟩ := Finset.mem_filter.mp hi
+        have hin' := Finset.mem_range.mp hin
+        obtain ⟨s1, e2, _, e4, e5⟩ := hcell i hin'
+        refine ⟨setCoord (shapeOf axes) t k i, ?_, e4⟩
+        simp only [Finset.mem_filter]
+        exact ⟨(hSmem _).mpr ⟨s1, by rw [e2]; linarith⟩, e5⟩
+    have hne_line : (S.filter fun c => lineOf axes k c = t).Nonempty :=
+      ⟨c0, Finset.mem_filter.mpr ⟨hc0S, hc0t⟩⟩
+    have hFne : F.Nonempty := by
+      rw [← Finset.card_pos, ← hbij_card, Finset.card_pos]; exact hne_line
+    refine ⟨hne_line, ?_⟩
+    rw [hbij_sum, hbij_card]
+    exact fibre_mean a hwf ck q R hq_le hres hFne
+  -- sum over the lines
+  have hmaps : ∀ c ∈ S, lineOf axes k c ∈ S.image (lineOf axes k) := fun c hc => Finset.mem_image_of_mem _ hc
+  rw [← Finset.sum_fiberwise_of_maps_to hmaps, Finset.card_eq_sum_card_fiberwise hmaps]
+  push_cast
+  rw [Finset.sum_mul]
+  have himg : (S.image (lineOf axes k)).Nonempty := hne.image _
+  calc |∑ t ∈ S.image (lineOf axes k), ∑ c ∈ S.filter (fun c => lineOf axes k c = t), U axes ctr c k|
+      ≤ ∑ t ∈ S.image (lineOf axes k), |∑ c ∈ S.filter (fun c => lineOf axes k c = t), U axes ctr c k| :=
+        Finset.abs_sum_le_sum_abs _ _
+    _ < ∑ t ∈ S.image (lineOf axes k), ((S.filter fun c => lineOf axes k c = t).card : ℚ) * (a.dx / 2) :=
+        Finset.sum_lt_sum_of_nonempty himg (fun t ht => (hline t ht).2)
+
+end DV.C01
+
+namespace DV.C01
+open Finset BigOperators DV.Merge DV.MergeInv DV.Label DV.LabelInv DV.GridGeom DV.Render DV.BallConn DV.C02
+
+variable (axes : List Axis) (ctr : List ℚ)
+
+theorem list_range_sum (g : ℕ → ℚ) (n : ℕ) : ((List.range n).map g).sum = ∑ i ∈ Finset.range n, g i := by
+  induction n with
+  | zero => simp
+  | succ n ih => rw [List.range_succ, List.map_append, List.sum_append, ih, Finset.sum_range_succ]; simp
+
+theorem wsum_eq_finset (lab : ℕ → ℕ) (r : ℕ) (f : ℕ → ℚ) (n : ℕ) :
+    wsum lab r f (List.range n) = ∑ c ∈ (Finset.range n).filter (fun c => lab c = r), f c := by
+  unfold wsum
+  rw [list_range_sum, Finset.sum_filter]
+
+theorem count_eq_card (lab : ℕ → ℕ) (r : ℕ) (n : ℕ) :
+    count lab r (List.range n) = (((Finset.range n).filter fun c => lab c = r).card : ℚ) := by
+  unfold count
+  rw [wsum_eq_finset]
+  simp
+
+/-- the droplet is resolved along every axis -/
+def FullyResolved (R : ℚ) : Prop :=
+  ∀ k, k < axes.length → AxisResolved (axes.getD k default) (ctr.getD k 0) R
+
+theorem FullyResolved.resolved {R : ℚ} (hr : FullyResolved axes ctr R) (hd : 0 < axes.length) : Resolved axes R :=
+  ⟨(hr 0 hd).nonneg, fun k hk hp => (hr k hk).per hp⟩
+
+/-- **One droplet, end to end: the located position is within half a cell of the centre.**
+For every well-formed grid (any dimension ≥ 1, anisotropic spacing, any mix of periodic axes) and every
+droplet that is resolved (on periodic axes `2 (R + dx) ≤ L`, on the others the sphere lies inside the box)
+and covers at least one cell centre: the position that the pipeline (rendering, labelling, periodic
+merging) stores for the single cluster, converted to grid coordinates, differs from the droplet's centre
+by less than HALF A CELL along every axis — up to whole periods along periodic axes, exactly along the others. -/
+theorem single_droplet_within_half_cell (h : GridWF axes ctr) {R : ℚ} (hr : FullyResolved axes ctr R)
+    (hd : 0 < axes.length) (c0 : ℕ) (m0 : ballMask axes ctr R c0 = true) :
+    let mask := ballMask axes ctr R
+    let L := labelFn (shapeOf axes) mask
+    let cells := List.range (numCells (shapeOf axes))
+    let st := mergeLoop (fun a => (shapeOf axes).getD a 1) L (initSt (coordOf (shapeOf axes)) L cells)
+      (edgesOf (shapeOf axes) (perOf axes))
+    ∃ m : ℕ → ℤ, (∀ a, a < axes.length → (axes.getD a default).periodic = false → m a = 0) ∧ ∀ a, a < axes.length →
+      |(axes.getD a default).lo + (axes.getD a default).dx * st.pos (st.lab c0) a
+        - (m a : ℚ) * (axes.getD a default).length - ctr.getD a 0| < (axes.getD a default).dx / 2 := by
+  intro mask L cells st
+  obtain ⟨m, hm0, hm⟩ := single_droplet_position axes ctr h (hr.resolved axes ctr hd) c0 m0
+  refine ⟨m, hm0, fun a ha => ?_⟩
+  have hma := hm a ha
+  -- labels: r0 on the mask, 0 elsewhere
+  have hmask : ∀ c, mask c = true → c < numCells (shapeOf axes) := fun c hc => ((ballMask_iff axes ctr R c).mp hc).1
+  have hone := single_droplet_one_cluster axes ctr h R (coordOf (shapeOf axes)) cells (fun a => (shapeOf axes).getD a 1)
+  have hposlab := (locateMask_partition (shapeOf axes) (perOf axes) mask hmask (coordOf (shapeOf axes)) cells
+    (fun a => (shapeOf axes).getD a 1)).1
+  have hr0pos : 0 < st.lab c0 := (hposlab c0).mpr m0
+  have hfilter : (Finset.range (numCells (shapeOf axes))).filter (fun c => st.lab c = st.lab c0) =
+      (Finset.range (numCells (shapeOf axes))).filter (fun c => ballMask axes ctr R c = true) := by
+    apply Finset.filter_congr
+    intro c _
+    constructor
+    · intro hc
+      exact (hposlab c).mp (by rw [hc]; exact hr0pos)
+    · intro hc
+      exact hone c c0 hc m0
+  have hne : ((Finset.range (numCells (shapeOf axes))).filter fun c => ballMask axes ctr R c = true).Nonempty :=
+    ⟨c0, Finset.mem_filter.mpr ⟨Finset.mem_range.mpr (hmask c0 m0), m0⟩⟩
+  have hbound := ball_offset_mean axes ctr h R ha (hr a ha) hne
+  have hw : wsum st.lab (st.lab c0) (fun c => U axes ctr c a) cells =
+      ∑ c ∈ (Finset.range (numCells (shapeOf axes))).filter (fun c => ballMask axes ctr R c = true), U axes ctr c a := by
+    rw [wsum_eq_finset, hfilter]
+  have hc : count st.lab (st.lab c0) cells =
+      (((Finset.range (numCells (shapeOf axes))).filter fun c => ballMask axes ctr R c = true).card : ℚ) := by
+    rw [count_eq_card, hfilter]
+  have hcpos : (0 : ℚ) < (((Finset.range (numCells (shapeOf axes))).filter fun c => ballMask axes ctr R c = true).card : ℚ) := by
+    exact_mod_cast Finset.card_pos.mpr hne
+  rw [hma, hw, hc]
+  have : ctr.getD a 0 + (∑ c ∈ (Finset.range (numCells (shapeOf axes))).filter (fun c => ballMask axes ctr R c = true), U axes ctr c a) /
+      (((Finset.range (numCells (shapeOf axes))).filter fun c => ballMask axes ctr R c = true).card : ℚ)
+      + (m a : ℚ) * (axes.getD a default).length - (m a : ℚ) * (axes.getD a default).length - ctr.getD a 0
+      = (∑ c ∈ (Finset.range (numCells (shapeOf axes))).filter (fun c => ballMask axes ctr R c = true), U axes ctr c a) /
+      (((Finset.range (numCells (shapeOf axes))).filter fun c => ballMask axes ctr R c = true).card : ℚ) := by ring
+  rw [this, abs_div, abs_of_pos hcpos, div_lt_iff₀ hcpos]
+  linarith
+
+/-- non-vacuity of the hypotheses of `single_droplet_within_half_cell`: the droplet of the example above
+(5×8 grid, periodic second axis, centre (2.5, 7.9), radius 1.3) is resolved along both axes; the pipeline's
+position (2.5, 0) is indeed within half a cell of the centre up to one period along the periodic axis -/
+example : FullyResolved axesEx [5/2, 79/10] (13/10) := by
+  intro k hk
+  have : k = 0 ∨ k = 1 := by simp [axesEx] at hk; omega
+  rcases this with rfl | rfl
+  · refine ⟨by norm_num, ?_, ?_⟩
+    · intro hp; simp [axesEx] at hp
+    · intro _; simp [axesEx, Axis.length]; norm_num
+  · refine ⟨by norm_num, ?_, ?_⟩
+    · intro _; simp [axesEx, Axis.length]; norm_num
+    · intro hp; simp [axesEx] at hp
+
+end DV.C01
